@@ -221,14 +221,26 @@ def _run_shard(task):
                           suppress_health_check=[HealthCheck.too_slow, HealthCheck.data_too_large,
                                                  HealthCheck.large_base_example,
                                                  HealthCheck.filter_too_much])
-            test = hypothesis.seed(seed)(settings(st)(given(clause.strategy())(body)))
-            try:
-                test()
-            except Violation:
-                pass
-            except BaseException as e:       # Flaky after cap, etc.
-                if state['best'] is None:
-                    raise
+            # the budget is spent in slices (fresh derived seed per slice) so that a shard stops generating soon after the
+            # soft wall deadline instead of letting Hypothesis draw and skip every remaining example
+            strat = clause.strategy()
+            chunk = max(25, min(400, -(-n // 4)))
+            done, k = 0, 0
+            while done < n and state['best'] is None and time.time() <= deadline:
+                m = min(chunk, n - done)
+                stk = settings(st, max_examples=m)
+                test = hypothesis.seed(derive_seed(seed, 'slice', k))(stk(given(strat)(body)))
+                try:
+                    test()
+                except Violation:
+                    pass
+                except BaseException as e:       # Flaky after cap, etc.
+                    if state['best'] is None:
+                        raise
+                done += m
+                k += 1
+            if done < n and state['best'] is None:
+                res['skipped_budget'] += n - done
         if state['best'] is not None:
             size, case, detail, key = state['best']
             res['failure'] = dict(case=case, detail=detail, key=key, shrink_capped=state['capped'])
